@@ -352,8 +352,22 @@ func genE2E11(r *rand.Rand) e2eCase {
 		}
 		ex.Projs = append(ex.Projs, p)
 	}
-	if r.Intn(2) == 0 { // aggregates first
-		ex.Projs = append(ex.Projs[len(ex.GroupBy):], ex.Projs[:len(ex.GroupBy)]...)
+	// aggregates over the SAME binding a grouping column projects (count(?s) next to ?s ... GROUP BY ?s)
+	ng := len(ex.GroupBy)
+	if r.Intn(2) == 0 {
+		for i := 0; i < ng; i++ {
+			if r.Intn(2) == 0 {
+				ex.Projs = append(ex.Projs, jproj{Bind: ex.Projs[i].Bind, Alias: fmt.Sprintf("?g%d", i), Op: "count", Distinct: r.Intn(2) == 0})
+			}
+		}
+	}
+	// the order of the projections is free: aggregates before / between / after the grouping columns
+	switch r.Intn(4) {
+	case 0: // as listed: grouping columns first
+	case 1: // aggregates first
+		ex.Projs = append(ex.Projs[ng:], ex.Projs[:ng]...)
+	default:
+		r.Shuffle(len(ex.Projs), func(i, j int) { ex.Projs[i], ex.Projs[j] = ex.Projs[j], ex.Projs[i] })
 	}
 	var ps []string
 	for _, p := range ex.Projs {
